@@ -134,7 +134,18 @@ class Engines:
                 return None
             if same(x, y, steps_map):
                 return None
-            return "trace" if record(x)[2] != record(y)[2] else "completion"
+            if record(x)[2] != record(y)[2]:
+                return "trace"
+            # a completion-only difference keeps its shape while it is reduced (which step differs, value/throw/early
+            # and the error class on both sides; for value-against-value the values themselves): otherwise the reducer
+            # slides from the difference that was found into an unrelated one, e.g. into an open known finding
+            def cat(c):
+                return c if c.startswith(("throw:", "early", "limit")) else c.split(":")[0]
+            sig = []
+            for a, b in zip(record(x)[1] or [], record(y)[1] or []):
+                if a != b:
+                    sig.append((cat(a), cat(b)) if (cat(a), cat(b)) != ("value", "value") else (a, b))
+            return "completion:" + repr(sig)
         x0 = self.boa([make_boa_job(src)], shards=1, timeout=10)[0]
         y0 = self.node([make_node_job(src)])[0]
         want = kind_of(x0, y0)
